@@ -119,6 +119,14 @@ def loading_case(rec, rng, cid, scratch):
         recf = recs[int(rng.integers(len(recs)))]
         shutil.copy(recf, d / recf.name)
         layout[str(d / recf.name)] = 1
+    if rng.random() < .5:
+        # multi-curve recorded maps (their reader reports intermediate
+        # progress for every curve, unlike the HDF5 reader)
+        from nanite import IndentationGroup as _IG
+        for mname in [MAPS[i] for i in rng.permutation(2)[:int(
+                rng.integers(1, 3))]]:
+            shutil.copy(gen.DATA / mname, d / mname)
+            layout[str(d / mname)] = len(_IG(d / mname))
     case = {"id": cid, "kind": "loading",
             "layout": {pathlib.Path(k).name: v for k, v in layout.items()}}
     # ---- single files through IndentationGroup
